@@ -57,3 +57,32 @@ Print Assumptions C02_nested_tokenize_balanced.
 Theorem C02_balanced_levels : forall d ts, bal d ts -> levels_ok ts d /\ nest_sum ts = 0.
 Proof. exact bal_summary. Qed.
 Print Assumptions C02_balanced_levels.
+
+(* ---- inline half, tokenizer phase ---------------------------------------------------------- *)
+From MD Require Lemmas.InlineNest.
+
+(* ParserInline.tokenize at any nesting depth, from ANY state: the level comes back to where it
+   was and the appended segment is nested - link_open / link_close pairs like brackets (matching
+   kind), every other token with nesting 0.  Covers all 12 tokenizer rules, label / image
+   recursion, skipToken, pending-text flushing. *)
+Theorem C02_inline_tokenize_nested :
+  forall cfg rf cf lt depth st st',
+    inline_tokenize cfg rf cf lt (ifs cfg rf cf lt depth) st = Ok st' ->
+    i_level st' = i_level st /\ exists seg, i_tokens st' = i_tokens st ++ seg /\ InlineNest.ib seg.
+Proof. exact InlineNest.inline_tokenize_nested. Qed.
+Print Assumptions C02_inline_tokenize_nested.
+
+(* the whole inline parser when the emphasis / strikethrough post-rules are not in the chain (they
+   are the rules that turn text tokens into pairs): the output checks with a depth counter -
+   never negative, zero at the end, every closing token a link_close under an open link_open;
+   fragments_join only drops text tokens and rewrites levels *)
+Theorem C02_inline_parse_nested :
+  forall cfg rf cf lt src env r,
+    InlineNest.no_pair_rules2 cfg -> inline_parse cfg rf cf lt src env [] = Ok r -> InlineNest.nested 0 r.
+Proof. exact InlineNest.inline_parse_nested. Qed.
+Print Assumptions C02_inline_parse_nested.
+
+Theorem C02_fragments_join_keeps_nesting :
+  forall tokens d level carry, InlineNest.nested d tokens -> InlineNest.nested d (fj tokens level carry).
+Proof. exact InlineNest.fj_nested. Qed.
+Print Assumptions C02_fragments_join_keeps_nesting.
